@@ -306,6 +306,7 @@ func (m *Manager) onClose(reason Reason, err error) {
 
 	m.stateMu.Lock()
 	m.state = clientConnStateDisconnected
+	vhook.Event("mgr.state", "m", m, "site", "onclose", "to", int(m.state), "reason", string(reason))
 	m.stateMu.Unlock()
 
 	m.closeHandlers.forEach(func(handler *ManagerCloseFunc) { (*handler)(reason, err) }, true)
@@ -323,10 +324,12 @@ func (m *Manager) Close() {
 
 	m.stateMu.Lock()
 	m.state = clientConnStateDisconnected
+	vhook.Event("mgr.state", "m", m, "site", "close", "to", int(m.state))
 	m.stateMu.Unlock()
 
 	m.skipReconnectMu.Lock()
 	m.skipReconnect = true
+	vhook.Event("mgr.skip", "m", m, "v", true)
 	m.skipReconnectMu.Unlock()
 
 	m.onClose(ReasonForcedClose, nil)
